@@ -62,6 +62,11 @@ _INT = re.compile(r"[0-9]+")
 
 def tokenize(text: str, reading: str = "W"):
     """-> list of (type, value).  Raises RefLexError / RefAmbiguous."""
+    return [(t, v) for t, v, _s, _e in tokenize_spans(text, reading)]
+
+
+def tokenize_spans(text: str, reading: str = "W"):
+    """-> list of (type, value, start, end)"""
     kws = _KW_W if reading == "W" else _KW_D
     out = []
     i, n = 0, len(text)
@@ -88,14 +93,14 @@ def tokenize(text: str, reading: str = "W"):
                 j += 1
             if j >= n or text[j] != c:
                 raise RefLexError(f"unterminated string at {i}")
-            out.append(("STR", text[i + 1 : j]))
+            out.append(("STR", text[i + 1 : j], i, j + 1))
             i = j + 1
             continue
         if ord(c) > 127 or c in "\x1c\x1d\x1e\x1f":
             raise RefAmbiguous(f"non-ASCII / separator control character {c!r} outside string/comment")
         for name, sym in _SYMS:
             if text.startswith(sym, i):
-                out.append((name, sym))
+                out.append((name, sym, i, i + len(sym)))
                 i += len(sym)
                 break
         else:
@@ -104,23 +109,23 @@ def tokenize(text: str, reading: str = "W"):
                 if m:
                     if ord(max(m.group())) > 127:
                         raise RefAmbiguous("non-ASCII whitespace inside keyword")
-                    out.append((name, m.group()))
+                    out.append((name, m.group(), i, m.end()))
                     i = m.end()
                     break
             else:
                 m = _ID.match(text, i)
                 if m:
-                    out.append(("ID", m.group()))
+                    out.append(("ID", m.group(), i, m.end()))
                     i = m.end()
                     continue
                 m = _FLOAT.match(text, i)
                 if m:
-                    out.append(("FLOAT", m.group()))
+                    out.append(("FLOAT", m.group(), i, m.end()))
                     i = m.end()
                     continue
                 m = _INT.match(text, i)
                 if m:
-                    out.append(("INT", m.group()))
+                    out.append(("INT", m.group(), i, m.end()))
                     i = m.end()
                     continue
                 raise RefLexError(f"illegal character {c!r} at {i}")
